@@ -259,14 +259,16 @@ def check_c07(ctx):
     """function level: all layouts through both twins; end to end: the operator replay with the C07 oracles."""
     binary = vlib.go_build(ctx, "combine")
     total = 0
-    for cfg in (["Combine_quick.cfg", "Combine_two.cfg"] if ctx.quick() else ["Combine_thorough.cfg", "Combine_two.cfg"]):
+    for cfg in (["Combine_quick.cfg", "Combine_two.cfg", "Combine_stop.cfg"] if ctx.quick() else ["Combine_thorough.cfg", "Combine_two.cfg", "Combine_stop.cfg"]):
         r = vlib.tlc(ctx, SPEC, "Combine", cfg, timeout=1500, expect_violation=False, workers=4)
         cases = r["prints"]
         if not cases:
             raise Infra("no layouts from " + cfg)
         inp, outp = ctx.path("cmb_in.jsonl"), ctx.path("cmb_out.jsonl")
         vlib.write_jsonl(inp, cases)
-        rr = vlib.run_bin(ctx, binary, ["-in", inp, "-out", outp], timeout=900)
+        # Combine_stop: the caller's stopCombineFn rejects some tasks, and a task is appended while the combination is under way
+        margs = ["-mode", "stop"] if cfg == "Combine_stop.cfg" else []
+        rr = vlib.run_bin(ctx, binary, margs + ["-in", inp, "-out", outp], timeout=900)
         if rr["rc"] != 0:
             raise Infra("combine harness failed: " + rr["stderr"][-1500:])
         res = vlib.read_jsonl(outp)
@@ -274,7 +276,7 @@ def check_c07(ctx):
             raise Infra("combine: %d results for %d cases" % (len(res), len(cases)))
         for c, o in zip(cases, res):
             if not o["ok"]:
-                ctx.fail(o["sig"], o["detail"], vlib.replay_payload("combine", ["-in", "{in}", "-out", "{out}"], c, human={"layout": c["layout"], "expected": c["res"]}))
+                ctx.fail(o["sig"], o["detail"], vlib.replay_payload("combine", margs + ["-in", "{in}", "-out", "{out}"], c, human={"layout": c["layout"], "expected": c["res"]}))
         total += len(cases)
         ctx.log("%s: %d layouts enumerated by TLC, all replayed through both combine functions" % (cfg, len(cases)))
         ctx.sample({"layout": cases[len(cases) // 2]["layout"], "expected": cases[len(cases) // 2]["res"]})
@@ -318,7 +320,11 @@ MANIFEST = {
                 technique="TLA+ spec + TLC exhaustive check; step-by-step replay of TLC behaviours on the real operator", design="5/C06"),
     "C07": dict(text="TLC enumerates every queue layout within the bounds (spec/Operator/Combine.tla, reference semantics in CombineOps.tla) and each layout is "
                      "replayed through the exported CombineBindingContextForHook and the internal twin: returned contexts (origin-tagged), monitor ids and "
-                     "queue remainder compared; operator-level behaviours check what the hook process receives.",
-                note="Layouts: length <= 3 (quick) / 4 (thorough) over 2 hooks, 2 task types, metadata-less tasks, groups {'', g1, g2}, 1-2 contexts per task.",
+                     "queue remainder compared; a second pass (Combine_stop.cfg) marks tasks that the caller's stopCombineFn rejects and appends a task "
+                     "from another goroutine between the two critical sections of the combination (it must stay, unmerged, at the end); "
+                     "operator-level behaviours check what the hook process receives, and free-running operators are validated against OperatorLog.tla.",
+                note="Layouts: length <= 3 (quick) / 4 (thorough) over 2 hooks, 2 task types, metadata-less tasks, groups {'', g1, g2}, 1-2 contexts per task; "
+                     "stop flags on layouts of length <= 3. The concurrent append is ordered by the queue's RWMutex (a writer that waits while Iterate "
+                     "holds the read lock goes ahead of Filter's write lock); should it ever come later the expected result is the same.",
                 technique="TLA+ reference function enumerated by TLC; case replay on both combine functions; operator-level behaviour replay", design="5/C07"),
 }
